@@ -231,8 +231,11 @@ class BoundCallable:
                 case p.POSITIONAL_OR_KEYWORD:
                     if name in kwargsc:
                         actual.add_kwarg(name, kwargsc.pop(name, None))
-                    else:
-                        actual.add_arg(name, argsc.pop(0) if argsc else arg)
+                    elif argsc:
+                        actual.add_arg(name, argsc.pop(0))
+                    elif param.default is p.empty or not actual.args:
+                        actual.add_arg(name, arg)  # note: inject known arg
+                    # NOTE: a later parameter that was not supplied keeps its default
                 case p.POSITIONAL_ONLY:
                     actual.add_arg(
                         name,
